@@ -20,7 +20,8 @@ LEVEL_TEXT = (
     "header names were folded to: a membership test in a set / list / dict of the folded names - filled in the loop that sends the pairs or "
     "built by a comprehension over the headers sent -, an any() search, or a boolean flag set in that loop under `<name>.lower() == 'content-length'`), "
     "HEAD, every 1xx status, 204 and 304 (the guard atoms are evaluated over all status "
-    "codes 100-599, module-level constants folded; a guard that calls a side-effect-free predicate helper - a nested function or handler method made only of "
+    "codes 100-599, module-level constants folded; a disjunction such as `code < 100 or code >= 200`, whose atoms dominate nothing on their own, is followed on the CFG: a code is "
+    "admitted when some way to the decision leaves every test that can be evaluated for it by the edge the code takes; a guard that calls a side-effect-free predicate helper - a nested function or handler method made only of "
     "`if` / `return` - is replaced by the helper's condition) and requires protocol HTTP/1.1, and `Transfer-Encoding: chunked` is sent under exactly that guard, "
     "before end_headers; (R19.2) on every path through write() the bytes put on the wire are `hex(len) CRLF data CRLF` "
     "for non-empty data under chunking, the data alone otherwise, and nothing for an empty piece (pieces may be collected in a local list "
@@ -28,7 +29,9 @@ LEVEL_TEXT = (
     "`0 CRLF CRLF` is written once, after the iteration and after the headers were forced out, only under chunking; "
     "status (int of the first token of a split / partition, however indexed) and every header pair (`for k, v in H: send_header(k, v)`, `for h in H: send_header(*h)` / `(h[0], h[1])`) reach send_response / send_header unfiltered, and the test that guards the status line / "
     "header block is a latch that the block closes with a constant or a value established as non-None / truthy by a "
-    "dominating assert or guard - never by the truthiness of application data; (R19.3) the chunk-size reader turns "
+    "dominating assert or guard - never by the truthiness of application data (a nested function of run_wsgi that is only ever called as a statement from a sibling nested function - the header block moved out of "
+    "the writer - is expanded where it is called, its guard-clause `return`s turned into if / else and its nonlocal declarations moved along; `a, b = x, y` is read as `a = x`, `b = y` where the two mean the same); (R19.3) the chunk-size reader "
+    "(the method that hands the size back and calls int() itself or through a helper - a method of the class or a function of the module whose every `return` ends a path - which is expanded into it) turns "
     "every parse failure and a negative size into OSError (in the reader itself, or around / right after every call of it in readinto) and parses base 16; the reader accepts every well-formed "
     "size line that ends the way the chunk terminator may end - sibling agreement of the two line readers on the framings the property lists: followed statement by "
     "statement on 8 sample size lines (hex digits in both cases, several digits, leading zeros, zero) for each of CRLF and LF, `readline()` answered by the sample, "
@@ -291,7 +294,11 @@ def run(ctx: Ctx) -> None:
         raise AnalysisError("WSGIRequestHandler.run_wsgi / make_environ missing")
     ctx.saw(rw, me)
     rw = _inline_own_helpers(ctx, rw, handler)
+    rw = _normalise_response_fn(rw)
     me = _inline_own_helpers(ctx, me, handler)
+    me_node, me_split = H.split_parallel_assigns(me.node)  # `scheme, netloc = url.scheme, url.netloc` is two bindings
+    if me_split:
+        me = FuncInfo(me.module, me_node, me.qualname, me.cls)
     _response_rules(ctx, rw)
     dech = _environ_rules(ctx, me)
     _dechunker_rules(ctx, dech)
@@ -322,6 +329,66 @@ def _inline_own_helpers(ctx: Ctx, fi: FuncInfo, handler: ClassInfo) -> FuncInfo:
         return fi
     ctx.saw(*[handler.methods[nm] for nm in sorted(inlined)])
     return FuncInfo(fi.module, node, fi.qualname, fi.cls)
+
+
+def _normalise_response_fn(rw: FuncInfo) -> FuncInfo:
+    """run_wsgi in the shape the response rules read: a nested function that is only ever called as a statement from a
+    sibling nested function (the header block moved out of the writer, say) is expanded into its caller
+    (_c19_helpers.inline_nested_helpers), and `a, b = x, y` is read as `a = x` ; `b = y` where the two mean the same."""
+    node, inlined = H.inline_nested_helpers(rw.node)
+    node2, nsplit = H.split_parallel_assigns(node)
+    if not inlined and not nsplit:
+        return rw
+    return FuncInfo(rw.module, node2, rw.qualname, rw.cls)
+
+
+def _admitted(cfg: CFG, rd: ReachingDefs, node: Node, G_: list[tuple[t.Any, str]], is_var: t.Callable[[ast.AST], bool], domain: t.Iterable[t.Any], fold: t.Callable[[ast.AST], t.Any] | None, widen: t.Callable[[ast.AST], bool] | None = None) -> tuple[list[t.Any], list[tuple[t.Any, str]]]:
+    """values of the tested quantity under which `node` is reached.  Two readings, both necessary conditions, intersected:
+    (a) every dominating guard atom (expanded: predicate helpers, hoisted booleans) holds for the value (H.admitted);
+    (b) there is a way from the entry to the node on which every test that can be evaluated for the value is left by the
+    edge the value takes - this sees a disjunction (`code < 100 or code >= 200`), whose atoms dominate nothing on their
+    own.  A test of the quantity that cannot be evaluated constrains nothing in (b); it is an analysis error when
+    reported by (a)."""
+    domain = list(domain)
+    adm_a, atoms = H.admitted(G_, is_var, domain, fold=fold)
+    tests: list[tuple[Node, ast.AST]] = []
+    for tn in cfg.nodes:
+        if tn.kind != "test" or tn.ast is None or tn is node:
+            continue
+        ex = tn.ast
+        if widen is not None:
+            ex2, used = _expand_locals(tn.ast, tn, rd, only_if=widen)
+            if used:
+                ex = ex2
+        if H.mentions(ex, is_var):
+            tests.append((tn, ex))
+    if not tests:
+        return adm_a, atoms
+    out = []
+    followed: dict[int, tuple[t.Any, str]] = {}
+    for v in adm_a:
+        def bind(x: ast.AST, v: t.Any = v) -> tuple[bool, t.Any]:
+            if is_var(x):
+                return True, v
+            if fold is not None and isinstance(x, (ast.Name, ast.Attribute)):
+                try:
+                    return True, fold(x)
+                except Exception:
+                    return False, None
+            return False, None
+
+        avoid = []
+        for tn, ex in tests:
+            try:
+                r = bool(H.ev(ex, bind))
+            except H.Unknown:
+                continue
+            avoid.append((tn, "F" if r else "T"))
+            followed.setdefault(tn.id, (_Atom(ex, tn), "*"))
+        if node.id in cfg.reach(avoid_edges=avoid):
+            out.append(v)
+    have = {a.id for a, _ in atoms if isinstance(a, Node)} | {id(a.ast) for a, _ in atoms}
+    return out, atoms + [(a, l) for tid, (a, l) in sorted(followed.items()) if tid not in have and id(a.ast) not in have]
 
 
 # =====================================================================
@@ -391,7 +458,7 @@ def _response_rules(ctx: Ctx, rw: FuncInfo) -> None:
         gtxt = sorted(f"{norm(t_.ast) if t_.kind == 'test' else t_.text()}:{l}" for t_, l in G)
         # status classes
         fold_w = _folder_of(ctx, wfi)
-        adm, atoms = H.admitted(G, is_code, range(100, 600), fold=fold_w)
+        adm, atoms = _admitted(wcfg, rdw, fnode, G, is_code, range(100, 600), fold_w, widen=tested)
         adm_s = set(adm)
         desc = f"status atoms {[norm(a.ast) + ':' + l for a, l in atoms]}; chunking admitted for {_ranges(adm)}"
         for what, bad in (("any 1xx status", set(range(100, 200))), ("204", {204}), ("304", {304})):
@@ -402,10 +469,10 @@ def _response_rules(ctx: Ctx, rw: FuncInfo) -> None:
         ctx.ob("R19.1", "the status tested is the status sent", same, f"`{code_name}` at send_response and at the decision have the same definitions: {same}", wfi, fnode.ast, "decision code is sent code")
         # HEAD
         # a Subscript/Call matcher must not also match its own children
-        madm, matoms = H.admitted(G, is_method, ["GET", "HEAD", "POST", "OPTIONS"], fold=fold_w)
+        madm, matoms = _admitted(wcfg, rdw, fnode, G, is_method, ["GET", "HEAD", "POST", "OPTIONS"], fold_w, widen=tested)
         ctx.ob("R19.1", "no chunked framing for HEAD", bool(matoms) and "HEAD" not in madm and "GET" in madm, f"method atoms {[norm(a.ast) + ':' + l for a, l in matoms]}; admitted methods {madm}", wfi, fnode.ast, "chunk decision excludes HEAD")
         # protocol
-        padm, patoms = H.admitted(G, is_proto, ["HTTP/0.9", "HTTP/1.0", "HTTP/1.1"], fold=fold_w)
+        padm, patoms = _admitted(wcfg, rdw, fnode, G, is_proto, ["HTTP/0.9", "HTTP/1.0", "HTTP/1.1"], fold_w, widen=tested)
         ctx.ob("R19.1", "chunked framing only when the server speaks HTTP/1.1", bool(patoms) and padm == ["HTTP/1.1"], f"protocol atoms {[norm(a.ast) + ':' + l for a, l in patoms]}; admitted {padm}", wfi, fnode.ast, "chunk decision requires HTTP/1.1")
         # Content-Length
         cl = []
@@ -2021,11 +2088,26 @@ def _dechunker_rules(ctx: Ctx, cls: ClassInfo) -> None:
     if len(under) != 1:
         raise AnalysisError(f"{cls.name}.__init__: expected one attribute holding the underlying stream, found {under}")
     under_attr = under[0]
-    readers = [fi for nm, fi in cls.methods.items() if nm != "readinto" and any(dotted(c.func) == "int" for c in astq.calls(fi.node))]
+    # the chunk-size reader: the method in which the size line is parsed - int() is called there, or in a helper whose
+    # result it hands on (a method of the class / a function of the module whose `return`s all end a path): the helper
+    # is expanded into the reader, which is then judged as if the parsing were written there; the reader hands the size back
+    meth_nodes = {nm: fi.node for nm, fi in cls.methods.items() if "." not in nm}
+    func_nodes = {nm: fi.node for nm, fi in cls.module.functions.items() if "." not in nm}
+    expanded: dict[str, tuple[ast.AST, set[str]]] = {}
+    for nm, fi in cls.methods.items():
+        if nm in ("readinto", "__init__") or "." in nm:
+            continue
+        expanded[nm] = H.inline_value_helpers(fi.node, meth_nodes, func_nodes, exclude={"readinto", "__init__", nm})
+    cands = [nm for nm, (node_, _) in expanded.items() if any(dotted(c.func) == "int" for c in astq.calls(node_)) and any(r.value is not None for r in astq.returns_of(node_))]
+    absorbed_ = {h for nm in cands for h in expanded[nm][1]}
+    readers = [cls.methods[nm] for nm in cands if nm not in absorbed_]
     if len(readers) != 1:
-        raise AnalysisError(f"{cls.name}: expected one chunk-size reader (a method calling int()), found {[f.name for f in readers]}")
+        raise AnalysisError(f"{cls.name}: expected one chunk-size reader (a method calling int(), directly or through a helper that returns the parsed value), found {[f.name for f in readers]}")
     lr = readers[0]
     ctx.saw(lr)
+    if expanded[lr.name][1]:
+        ctx.saw(*[cls.methods[h] if h in cls.methods else cls.module.functions[h] for h in sorted(expanded[lr.name][1]) if h in cls.methods or h in cls.module.functions])
+        lr = FuncInfo(lr.module, expanded[lr.name][0], lr.qualname, lr.cls)
     # one level of helper inlining: statement calls `self._h(...)` and single-expression predicates `self._p()`
     ri_src = ri
     xnode, inlined = H.inline_methods(ri.node, {nm: fi.node for nm, fi in cls.methods.items()}, exclude={lr.name, "readinto", "__init__"})
@@ -2141,7 +2223,7 @@ def _dechunker_rules(ctx: Ctx, cls: ClassInfo) -> None:
     # private helpers that read the terminator (extracted from readinto): followed one level
     term_helpers: dict[str, FuncInfo] = {}
     for nm, fi in cls.methods.items():
-        if fi is ri_src or fi is init or fi is lr:
+        if fi is ri_src or fi is init or fi.name == lr.name:
             continue
         if any(sym.under_call(x) or is_self_attr(x, under_attr) for x in ast.walk(fi.node)):
             called = [c for c in astq.calls(ri.node) if _self_call(c, nm)]
